@@ -167,13 +167,13 @@ def enhancement (d : Data κ α) (idx : Int) (realPart : α → α) : Except Err
     else .error .type
 
 /-- apodize(data, dim, kind, **kw): multiply along dim by the window evaluated on coords[dim] -/
-def apodize (validKinds : List String) (d : Data κ α) (dim kind : String) (kwKeys : List String) (w : List α) :
+def apodize (validKinds : List String) (d : Data κ α) (dim kind : String) (histKeys : List String) (w : List α) :
     Except Err (Data κ α) :=
   if dim ∉ d.dims then .error .value
-  else if kind ∉ validKinds then .error .value
+  else if kind.toLower ∉ validKinds then .error .value      -- kind = str(kind).lower()
   else do
     let r ← d.scaleAlong A.mul dim w
-    .ok (r.addHist "window" ("kind" :: kwKeys))
+    .ok (r.addHist "window" histKeys)
 
 /-- phase(data, dim, p0, p1) for |p| < 360: trace j is multiplied point by point by the factor table
     `cis j k` = exp(i·π/180·(p0ⱼ + p1ⱼ·k/N)) -/
